@@ -253,6 +253,7 @@ func initExterns() {
 			e.safe(s, x, "recv", Ne(args[0][0], Zero))
 			pl := bplace(e, args[0][0], kind)
 			old := s.sel(pl.Prefix+"#content", SStr, pl.Addr)
+			e.detAppend(s, x, pl.Addr[0], args[1][0])
 			s.sto(pl.Prefix+"#content", pl.Addr, Concat(old, args[1][0]))
 			return Value{StrLen(args[1][0]), Zero, Zero}
 		})
@@ -432,6 +433,7 @@ func initExterns() {
 	// ---- time (impure: recorded for DET)
 	externTable["time.Now"] = ret(func(e *Engine, s *State, x ssa.CallInstruction, args []Value) Value {
 		s.trace = append(s.trace, Event{Kind: "impure", Note: "time.Now"})
+		e.detImpure(s, x, "time.Now")
 		return e.havocResult(s, x, "time.Now")
 	})
 	externTable["(time.Time).Year"] = ret(func(e *Engine, s *State, x ssa.CallInstruction, args []Value) Value {
@@ -448,6 +450,7 @@ func initExterns() {
 	})
 	externTable["os.WriteFile"] = ret(func(e *Engine, s *State, x ssa.CallInstruction, args []Value) Value {
 		errv, _ := e.maybeError(s, "writefile")
+		e.detFS(s, x, "writefile", args[0][0])
 		s.trace = append(s.trace, Event{Kind: "writefile", Args: []*Term{args[0][0], e.bytesContent(s, args[1])}})
 		return errv
 	})
@@ -459,6 +462,7 @@ func initExterns() {
 	externTable["os.Create"] = ret(func(e *Engine, s *State, x ssa.CallInstruction, args []Value) Value {
 		errv, fails := e.maybeError(s, "create")
 		f := s.newAlloc("os.File")
+		e.detFS(s, x, "create", args[0][0])
 		s.sto("os.File.name", []*Term{f}, args[0][0])
 		s.trace = append(s.trace, Event{Kind: "create", Args: []*Term{args[0][0]}})
 		return Value{Ite(fails, Zero, f), errv[0], errv[1]}
